@@ -2,7 +2,7 @@
 from __future__ import annotations
 import json, random
 from ..common import Result, Violation, run_driver, canon_hash
-from ..aghist import Gen, Impl, canon_obs, canon_out, consistent
+from ..aghist import Gen, Impl, canon_obs, canon_out, consistent, rejected_clean
 
 ASSUMPTIONS = [
     'object identity is a runtime notion: the real sharing pattern is observed with id() on nodes, attackers and every mutable per-node container; in Lean identity is modelled by store references',
@@ -14,7 +14,9 @@ TRUSTED = ['Lean 4.33 kernel', 'axioms: propext, Classical.choice, Quot.sound',
            'harness/aghist.py, harness/props/c14.py']
 BUILD = {'add_node': 8, 'link': 10, 'add_attacker': 4, 'compromise': 6, 'set_labels': 2, 'attach': 1, 'remove_node': 1, 'touch': 1}
 MUTATE = {'add_node': 4, 'link': 4, 'remove_node': 3, 'add_attacker': 2, 'remove_attacker': 2, 'compromise': 5, 'undo': 3,
-          'set_labels': 3, 'prune': 1, 'touch': 5, 'lookup': 1, 'switch': 1}
+          'set_labels': 3, 'prune': 1, 'touch': 5, 'lookup': 1, 'switch': 1,
+          # rejected calls on the copy / the original: they must change neither graph
+          'add_attacker_bad': 1, 'add_attacker_used_id': 1, 'add_attacker_again': 1, 'add_node_again': 1}
 
 def footprint(g):
     """ids of every object that must not be shared"""
@@ -58,7 +60,8 @@ def run_one(ops, mo_steps, res):
     for i, op in enumerate(ops):
         st = im.step(op)
         res.bump(op['k'])
-        probs = []
+        if 'case' in op: res.bump(op['case'] + (' -> ' + st['err'] if st['err'] else ' -> accepted'))
+        probs = rejected_clean(st)
         if op['k'] == 'deepcopy':
             a, b = canon_obs(st['obs']), canon_obs(st['other'])
             if a != b: probs.append('the copy differs from the original in ' + ', '.join(k for k in a if a[k] != b[k]))
